@@ -42,6 +42,10 @@ pub struct RunInput {
     pub overrides: BTreeMap<String, i64>,
     pub faults: FaultMode,
     pub record_log: bool,
+    /// explicit schedule (minimised replays): the scheduling decisions - by running index - that
+    /// deviate from FIFO, with the choice made there; every other decision is FIFO. `None`: the
+    /// decisions are drawn from the run's `sched` stream according to its schedule mode.
+    pub sched_explicit: Option<BTreeMap<u64, u64>>,
 }
 
 impl RunInput {
@@ -59,6 +63,7 @@ impl RunInput {
             overrides,
             faults: FaultMode::Prng,
             record_log: false,
+            sched_explicit: None,
         }
     }
 }
@@ -89,6 +94,8 @@ pub struct RunOutput {
     pub panics: Vec<String>,
     /// hash of the sequence of scheduling decisions that were not FIFO (0 = plain FIFO run)
     pub sched_sig: u64,
+    /// the scheduling decisions of the run that deviated from FIFO: (running index, choice)
+    pub sched_devs: Vec<(u64, u64)>,
 }
 
 pub fn addr(idx: u8) -> SocketAddr {
@@ -333,6 +340,7 @@ impl World {
             sample: Value::Object(sample),
             panics: Vec::new(),
             sched_sig: 0,
+            sched_devs: Vec::new(),
         }
     }
 }
